@@ -417,6 +417,19 @@ pub fn generate(profile: &str, seed: u64) -> Scenario {
 }
 
 pub fn gen_general(profile: &str, seed: u64, p: &Params) -> Scenario {
+    // a few runs use wide collections (6-7 members: the largest tuple and array impls)
+    let mut wide = p.clone();
+    let p = if Rng::new(seed ^ 0x77).chance(6, 100) {
+        wide.leaves = (6, 7);
+        wide.target_elems = (5, 7);
+        wide.unit_pct = 10;
+        wide.data_pct = 10;
+        wide.threads = (1, 3);
+        wide.acqs = (1, 2);
+        &wide
+    } else {
+        p
+    };
     let mut g = Gen::new(seed, p);
     let mut w = g.world_base();
     g.add_targets(&mut w);
@@ -975,6 +988,9 @@ pub fn gen_c16(seed: u64) -> Scenario {
         if matches!(kind, OwnKind::Retry | OwnKind::Owned) && n > 0 {
             ctors.push(Ctor::NewThenExtend(g.rng.range(1, n)));
         }
+        if n == 0 && kind != OwnKind::Ref {
+            ctors.push(Ctor::Default);
+        }
         let ctor = *g.rng.pick(&ctors);
         let cont = g.pick_cont(n);
         let poison = kind != OwnKind::Ref && g.rng.chance(1, 4);
@@ -1042,7 +1058,7 @@ pub fn gen_c16(seed: u64) -> Scenario {
         threads[0].push(Step::GateWait(gi));
     }
     for &t in &own_targets {
-        let d = *g.rng.pick(&[Dtor::Drop, Dtor::IntoChild, Dtor::IntoInner, Dtor::IntoIter, Dtor::GetMut, Dtor::ChildMut]);
+        let d = *g.rng.pick(&[Dtor::Drop, Dtor::IntoChild, Dtor::IntoInner, Dtor::IntoIter, Dtor::GetMut, Dtor::ChildMut, Dtor::IterMut, Dtor::AsMut]);
         threads[0].push(Step::Destroy(t, d));
     }
     w.gates = nthreads.saturating_sub(1).max(1);
